@@ -54,6 +54,11 @@ const CPU_MS_RUN: u64 = 50; // CPU budget of one query evaluation (legitimate on
 const CPU_MS_REPLAY: u64 = 500;
 const CPU_US_PER_OBJECT: u64 = 10; // added to the budget for every object of the document (queries are linear in the document)
 fn cpu_budget(base_ms: u64, doc: &Document) -> u64 { base_ms + doc.objects.len() as u64 * CPU_US_PER_OBJECT / 1000 }
+/// A run that used up its CPU budget is evaluated once more, alone, with CONFIRM_SCALE times the budget, before it is reported
+/// as not terminating: a call that loops forever runs out again, a call that was merely slow on this machine at this moment
+/// (cold caches, a busy or throttled host) finishes.
+const CONFIRM_SCALE: u64 = 40;
+fn budget_scale() -> u64 { std::env::var("LOPDF_VERIF_C13_BUDGET_SCALE").ok().and_then(|v| v.parse().ok()).unwrap_or(1) }
 const WALL_S: i64 = 20; // wall-clock backstop for one evaluation
 const STACK: usize = 2 << 20; // stack of the evaluating thread (Rust's default for spawned threads)
 const AS_LIMIT: u64 = 4 << 30; // address space of a worker
@@ -980,7 +985,7 @@ fn worker_range(fam: &Family, thorough: bool, start_idx: u64, start_k: usize, en
                 pending.push_str(&format!("{} {} ", idx, k));
                 raw_write(&pending);
                 pending.clear();
-                pending.push_str(&eval_code(&doc, kind, arg, cpu_budget(CPU_MS_RUN, &doc), false));
+                pending.push_str(&eval_code(&doc, kind, arg, cpu_budget(CPU_MS_RUN, &doc) * budget_scale(), false));
                 pending.push('\n');
             }
         }
@@ -1008,9 +1013,10 @@ fn worker_json(path: &str) -> ! {
 
 struct RunOut { lines: Vec<(u64, usize, String)>, in_progress: Option<(u64, usize)>, done: bool, death: Option<(&'static str, String)> }
 
-fn spawn_worker(args: &[String]) -> Result<RunOut, String> {
+fn spawn_worker(args: &[String]) -> Result<RunOut, String> { spawn_worker_scaled(args, 1) }
+fn spawn_worker_scaled(args: &[String], scale: u64) -> Result<RunOut, String> {
     let exe = std::env::current_exe().map_err(|e| e.to_string())?;
-    let out = std::process::Command::new(exe).arg("c13-queries").args(args).env("RUST_BACKTRACE", "0").stdin(std::process::Stdio::null()).output().map_err(|e| e.to_string())?;
+    let out = std::process::Command::new(exe).arg("c13-queries").args(args).env("RUST_BACKTRACE", "0").env("LOPDF_VERIF_C13_BUDGET_SCALE", scale.to_string()).stdin(std::process::Stdio::null()).output().map_err(|e| e.to_string())?;
     let text = String::from_utf8_lossy(&out.stdout).to_string();
     let mut lines = vec![];
     let mut in_progress = None;
@@ -1074,7 +1080,16 @@ fn run_chunk(fam: &Family, thorough: bool, lo: u64, hi: u64) -> ChunkOut {
             (Some((ob, obs)), Some((di, dk))) => {
                 out.evals += 1;
                 out.nontrivial += 1;
-                out.fails.push(Fail { idx: di, k: dk, obligation: format!("{}:{}", ob, kind_name(fam.insts[dk].0)), observed: obs });
+                let mut confirmed = true;
+                if ob == "terminates" {
+                    // the same evaluation alone, with CONFIRM_SCALE times the budget
+                    let cargs: Vec<String> = vec!["--c13-worker".into(), fam.name.into(), (thorough as u8).to_string(), di.to_string(), dk.to_string(), (di + 1).to_string()];
+                    if let Ok(again) = spawn_worker_scaled(&cargs, CONFIRM_SCALE) {
+                        let finished = again.lines.iter().any(|(li, lk, _)| *li == di && *lk == dk);
+                        if finished { confirmed = false; }
+                    }
+                }
+                if confirmed { out.fails.push(Fail { idx: di, k: dk, obligation: format!("{}:{}", ob, kind_name(fam.insts[dk].0)), observed: obs }); }
                 if dk + 1 < ninst { idx = di; k = dk + 1; } else { idx = di + 1; k = 0; }
             }
             (Some((ob, obs)), None) => { out.harness_errors.push(format!("family {} worker from {} {} died outside an evaluation: {} {}", fam.name, idx, k, ob, obs)); break; }
@@ -1133,7 +1148,7 @@ pub fn run(thorough: bool) -> Report {
     if let Some(p) = args.iter().position(|a| a == "--c13-json") { worker_json(&args[p + 1]); }
 
     let fams = families();
-    let mut bound = format!("typed-chaos documents, {} families, each the full product of its slot alphabets (alphabet sizes in parentheses; the quick tier uses a prefix of each alphabet), every listed query evaluated on every document in a worker process ({} ms + {} us per object of the document CPU budget, {} MiB stack, {} GiB address space per evaluation): ", fams.len(), CPU_MS_RUN, CPU_US_PER_OBJECT, STACK >> 20, AS_LIMIT >> 30);
+    let mut bound = format!("typed-chaos documents, {} families, each the full product of its slot alphabets (alphabet sizes in parentheses; the quick tier uses a prefix of each alphabet), every listed query evaluated on every document in a worker process ({} ms + {} us per object of the document CPU budget - an evaluation that runs out of it is repeated alone with 40 times the budget and only reported if it runs out again -, {} MiB stack, {} GiB address space per evaluation): ", fams.len(), CPU_MS_RUN, CPU_US_PER_OBJECT, STACK >> 20, AS_LIMIT >> 30);
     for f in &fams {
         let mut q: Vec<String> = vec![];
         for (k, id) in &f.insts { let t = if id.0 == 0 { kind_name(*k).to_string() } else { format!("{}({})", kind_name(*k), id.0) }; if !q.contains(&t) { q.push(t); } }
